@@ -248,7 +248,9 @@ func (b *rNode) valid() bool {
 		if curr < prev {
 			return false
 		} else if curr != prev {
-			if tTag := b[(8*i)+7]; tTag == 0xFD {
+			// The element with the non-empty DRange [prev, curr) is the
+			// (i-1)'th one. A Codec Element's DRange must be empty.
+			if tTag := b[(8*(i-1))+7]; tTag == 0xFD {
 				return false
 			}
 		}
